@@ -973,7 +973,7 @@ func init() {
 	register(ruleFilter)
 	addProp(&PropSpec{
 		ID:          "C10",
-		Rules:       []string{"R-FILTER", "R-STATE", "R-SCOPE", "R-PAIR-P", "R-PREDLOOP", "R-ONELEVEL", "R-EXECADDR"},
+		Rules:       []string{"R-FILTER", "R-STATE", "R-SCOPE", "R-PAIR-P", "R-PREDLOOP", "R-ONELEVEL", "R-EXECADDR", "R-COLLMONO"},
 		Explanation: "The filter is a small decision procedure: its complete table over (unwrap, operand is an array, condition outcome, condition error) is extracted from the filter arm and compared with 'keep exactly the items whose condition is true, hand on the very same item, drop the others without aborting, abort only on an error'; @ is bound to the tested item and restored on every exit (typestate); the outcome→item mapping of predicate check expressions is extracted likewise.",
 		Decided: []string{"R-FILTER: table of the filter arm, identity of tested and forwarded item, unwrap-before-condition, @ binding, predicate-as-item mapping",
 			"R-STATE: @ restored on every exit of the condition executor", "R-SCOPE: the continuation is not evaluated while @ is rebound", "R-PAIR-P: an error from the condition is (failed, err), never (not found, err)"},
